@@ -327,6 +327,13 @@ theorem no_split_sections : splitSections table = [] := by decide +kernel
     (`sync.RWMutex` is not re-entrant). -/
 theorem no_reentrant_lock : reentrantCalls table = [] := by decide +kernel
 
+/-- **no re-entrant locking, at any call depth and through the SCEP authority**: no lock-taking method is
+    reached from a function that runs, or may be entered, with `adminMutex` held. The table's call edges
+    include the call-backs of `scep.(*Authority)` into its `SignAuthority` (this authority): before fix
+    3c3b5e1, `ReloadAdminResources` (entered with the write lock by every admin operation that reloads)
+    reached `LoadProvisionerByName` (read lock) through `scepAuthority.Validate`. -/
+theorem no_reentrant_lock_deep : reentrantDeep table = [] := by decide +kernel
+
 /-- nothing in the reviewed-benign list is stale -/
 theorem reviewed_current : reviewedBenign.all (fun x => (unsafeSites table).contains x) = true := by
   decide +kernel
